@@ -2,6 +2,7 @@ package main
 
 import (
 	"fmt"
+	"golang.org/x/tools/go/ssa"
 	"math/big"
 	"strings"
 )
@@ -28,6 +29,8 @@ func runC12(p *Program, r *Report) {
 	checkBradfordConstants(p, r, "C12")
 	checkAdaptForm(p, r, "C12")
 	checkApplyLinear(p, r, "C12")
+	checkPure(p, r, "C12.pure", []*ssa.Function{p.Func("ciexyz", "AdaptBetweenXYZWhitePoints"), p.Func("ciexyz", "AdaptBetweenXYYWhitePoints"), p.Method("ciexyz", "ChromaticAdaptation", "Apply")})
+	r.Floor("C12.pure", 3)
 	r.Floor("C12.const", 10)
 	r.Floor("C12.form", 9)
 	r.Floor("C12.xyy", 1)
